@@ -365,7 +365,9 @@ def run_case(ctx, desc):
         inwin = (~sp) & ((t - last_spike) < W)
         if inwin.any():
             ctx.count("silence_window_steps", int(inwin.sum()))
-            if st["lock"] and not np.array_equal(v1[inwin], v0[inwin]):
+            # (a voltage that has overflowed to nan / inf in an earlier unlocked step - reset far above the rheobase voltage of
+            # an exponential model - is "unchanged" when it is still that non-finite value)
+            if st["lock"] and not np.array_equal(v1[inwin], v0[inwin], equal_nan=True):
                 return ctx.violation(f"{cls}.I5.voltage_changed_while_locked", "voltage changed inside the refractory window with locking", rdesc)
             if adaptive and st["lock"] and desc["B"] == 1 and (st["adapt"] or (st["adapt"] is None and st["train"])):
                 m = np.broadcast_to(inwin[0][..., None], a0.shape)
